@@ -1,6 +1,8 @@
 CONSTANTS FlawShallowListFreeze = FALSE
  FlawSharedConstants = TRUE
  FlawInPlaceSort = FALSE
+ FlawAppendSharesCapacity = FALSE
+ OnlyTargets = {}
  MaxMut = 2
  DeepVias = {"direct", "alias"}
  LastVias = {}
